@@ -206,6 +206,9 @@ def ladder(ctx, P, path, fixed_base):
     okbit = False
     if bit_c:
         en = hashctx_local_name(fn, eloc)
+        # when the clamped copy is the result of a single call (a private clamp helper), reads of it print as that call
+        if fn.single_def(eloc) is not None:
+            en = pred.canon(fn.local_expr(eloc), fn)
         okbit = "ct_nonzero(" in bit_c and ("%s[(" % en) in bit_c and "Div 8)]" in bit_c and "Shr mod(" in bit_c and ",8)" in bit_c and "BitAnd 1" in bit_c.replace("mod(", "").replace("(1 BitAnd", "BitAnd 1") or False
         okbit = bool(re.search(r"ct_nonzero\(mod\(\(%s\[\((.+?) Div 8\)\] Shr mod\(\1,8\)\),2\)\)" % re.escape(en), bit_c))
     ctx.check(okbit, "ladder-bit", path, "bit = (e[pos / 8] >> (pos & 7)) & 1 of the clamped scalar", "%s: the ladder's bit selection is not (e[pos/8] >> (pos&7)) & 1 on the clamped scalar: %s" % (path, bit_c), where=fn.where(), key="ladder-bit:%s" % path)
